@@ -137,6 +137,8 @@ def run(chk):
          'listener_reconnect': True},
         {'programs': {'u1': ['connect'], 'u2': ['connect', 'disc']}, 'servers': ['close', 'idle', 'idle'],
          'handler_reconnect': True},
+        {'programs': {'u1': ['connect'], 'u2': ['status']}, 'servers': ['disc', 'keepalive', 'idle'],
+         'listener_reconnect': True, 'relisten_on_disc': True, 'early': True},
     ]
     bound = 1 if quick else 2
     cap = 250 if quick else 3000
